@@ -21,8 +21,9 @@ Host == "host"           \* the text handed to Exec: one directive
 VARIABLES content, entry, stack, loaded, opens, defined, status
 vars == <<content, entry, stack, loaded, opens, defined, status>>
 \* a frame: file f at directive pos; own = it compiles a text of its own (ensure_loaded) / it is included into the text of the
-\* nearest own frame below; an own frame carries the facts read so far, the initialization goals, and its phase
-Frame(f, own) == [f |-> f, pos |-> 1, own |-> own, facts |-> {}, goals |-> <<>>, phase |-> "read"]
+\* nearest own frame below; an own frame carries its text: the facts whose run is closed (facts), the fact of the run still open
+\* (buf, "" = none), the initialization goals, and its phase
+Frame(f, own) == [f |-> f, pos |-> 1, own |-> own, facts |-> {}, buf |-> "", goals |-> <<>>, phase |-> "read"]
 DirsOf(f) == IF f = Host THEN <<entry>> ELSE content[f]
 Init == /\ content \in Contents /\ entry \in { <<k, x>> : k \in KINDS \ {"init"}, x \in Files }
         /\ stack = << Frame(Host, TRUE) >> /\ loaded = {} /\ opens = 0 /\ defined = {} /\ status = "run"
@@ -32,8 +33,15 @@ RECURSIVE OwnerFrom(_)
 OwnerFrom(i) == IF stack[i].own THEN i ELSE OwnerFrom(i - 1)
 Owner == OwnerFrom(Len(stack))
 Including == { stack[i].f : i \in (Owner + 1)..Len(stack) }          \* the files being included into the current text
-SetTop(fr) == [stack EXCEPT ![Len(stack)] = fr]
-Advance == SetTop([Top EXCEPT !.pos = @ + 1])
+\* Every directive, and the end of the text, closes the open run of clauses: a second run for the same predicate is an error (the
+\* predicate is not declared discontiguous) - a file included twice into one text brings its fact twice.
+FlushAt(stk, o) == LET e == stk[o] IN
+                   IF e.buf = "" THEN [ok |-> TRUE, s |-> stk]
+                   ELSE IF e.buf \in e.facts THEN [ok |-> FALSE, s |-> stk]
+                   ELSE [ok |-> TRUE, s |-> [stk EXCEPT ![o].facts = @ \cup {e.buf}, ![o].buf = ""]]
+AddFactAt(stk, o, f) == IF stk[o].buf = f THEN [ok |-> TRUE, s |-> stk]
+                        ELSE LET fl == FlushAt(stk, o) IN IF ~fl.ok THEN fl ELSE [ok |-> TRUE, s |-> [fl.s EXCEPT ![o].buf = f]]
+SetTopOf(stk, fr) == [stk EXCEPT ![Len(stk)] = fr]
 \* ensure_loaded(x), from a directive or from an initialization goal: after the step, the caller has moved on
 Ensure(x, caller) ==
   /\ opens' = opens + 1
@@ -50,18 +58,24 @@ Step ==
           IF fr.goals = <<>> THEN \* the load is complete
                /\ stack' = SubSeq(stack, 1, Len(stack) - 1) /\ status' = (IF Len(stack) = 1 THEN "ok" ELSE "run")
                /\ UNCHANGED <<loaded, opens, defined>>
-          ELSE Ensure(fr.goals[1], SetTop([fr EXCEPT !.goals = Tail(@)]))
+          ELSE Ensure(fr.goals[1], SetTopOf(stack, [fr EXCEPT !.goals = Tail(@)]))
      ELSE IF fr.pos > Len(ds) THEN \* the end of the file: its fact, then the end of the inclusion or the commit of the text
-          IF fr.own THEN /\ defined' = defined \cup fr.facts \cup (IF fr.f = Host THEN {} ELSE {fr.f})
-                         /\ stack' = SetTop([fr EXCEPT !.phase = "goals"]) /\ UNCHANGED <<loaded, opens, status>>
-          ELSE /\ stack' = [SubSeq(stack, 1, Len(stack) - 1) EXCEPT ![Owner].facts = @ \cup {fr.f}]
-               /\ UNCHANGED <<loaded, opens, defined, status>>
-     ELSE LET d == ds[fr.pos] IN
-          CASE d[1] = "ens" -> Ensure(d[2], Advance)
-            [] d[1] = "init" -> /\ stack' = [Advance EXCEPT ![Owner].goals = Append(@, d[2])] /\ UNCHANGED <<loaded, opens, defined, status>>
-            [] d[1] = "inc" -> IF d[2] \in Including THEN opens' = opens + 1 /\ Fail
-                               ELSE /\ opens' = opens + 1 /\ stack' = Append(Advance, Frame(d[2], FALSE))
-                                    /\ UNCHANGED <<loaded, defined, status>>
+          IF fr.own THEN LET af == IF fr.f = Host THEN [ok |-> TRUE, s |-> stack] ELSE AddFactAt(stack, Len(stack), fr.f)
+                             fl == IF af.ok THEN FlushAt(af.s, Len(stack)) ELSE af IN
+                         IF ~fl.ok THEN opens' = opens /\ Fail
+                         ELSE /\ defined' = defined \cup fl.s[Len(stack)].facts
+                              /\ stack' = SetTopOf(fl.s, [fl.s[Len(stack)] EXCEPT !.phase = "goals"]) /\ UNCHANGED <<loaded, opens, status>>
+          ELSE LET af == AddFactAt(SubSeq(stack, 1, Len(stack) - 1), Owner, fr.f) IN
+               IF ~af.ok THEN opens' = opens /\ Fail
+               ELSE stack' = af.s /\ UNCHANGED <<loaded, opens, defined, status>>
+     ELSE LET d == ds[fr.pos] fl == FlushAt(stack, Owner) IN       \* a directive first closes the open run
+          IF ~fl.ok THEN opens' = opens /\ Fail
+          ELSE LET adv == SetTopOf(fl.s, [fl.s[Len(stack)] EXCEPT !.pos = @ + 1]) IN
+               CASE d[1] = "ens" -> Ensure(d[2], adv)
+                 [] d[1] = "init" -> /\ stack' = [adv EXCEPT ![Owner].goals = Append(@, d[2])] /\ UNCHANGED <<loaded, opens, defined, status>>
+                 [] d[1] = "inc" -> IF d[2] \in Including THEN opens' = opens + 1 /\ Fail
+                                    ELSE /\ opens' = opens + 1 /\ stack' = Append(adv, Frame(d[2], FALSE))
+                                         /\ UNCHANGED <<loaded, defined, status>>
 Done == status # "run" /\ UNCHANGED vars
 Spec == Init /\ [][Step \/ Done]_vars /\ WF_vars(Step)
 Emit == status # "run" => PrintT("CASE " \o ToJson([files |-> content, entry |-> entry, status |-> status, opens |-> opens, defined |-> defined, loaded |-> loaded]))
